@@ -35,4 +35,14 @@ CHECKS["C08"] = {
     "parts": [{"bin": "C08_semaphore"}],
 }
 
+CHECKS["C07"] = {
+    "registered": True,
+    "engine": "pmc-rt",
+    "technique": "stateless deviation-bounded (preemptions + early timeouts) exhaustive schedule enumeration of waiter/notifier programs on a live 2-worker runtime and on plain OS threads",
+    "level_text": "Every schedule within the deviation bound of every waiter-form x notifier-form program (wait loop, wait(pred), wait_for(pred), wait_until loop, stop-token wait; notify_all/notify_one, inside/outside the user lock) is executed on the real code; lost notifications show up as a stuck execution, and lock ownership on return, predicate values, timeout reports and stop-token returns are asserted in each execution.",
+    "level_note": "Sequentially consistent interleavings only; 2 workers, 1-2 waiters, 1 notifier; timed waits are pika's yield-until-deadline loops driven by the virtual clock (expiry before/after the notification is an explorer deviation); timed forms on plain OS threads are not exercised (pika implements them with a plain sleep).",
+    "rule": "pmc-rt/pmc-os: waiter forms x notifier forms (data choices) x all schedules within the deviation bound",
+    "parts": [{"bin": "C07_condvar"}],
+}
+
 PENDING = {}
